@@ -114,7 +114,9 @@ func c06Fingerprint(o object.PanObject, builtins map[object.PanObject]string, de
 	case *object.PanFunc:
 		return fmt.Sprintf("func(%d,%s)", v.FuncKind, v.Inspect())
 	case *object.PanErrWrapper:
-		return fmt.Sprintf("errwrap(%s,%q)^%s", v.Kind(), v.Msg, proto)
+		// a caught error is a value: what it reports when raised again (its recorded
+		// frames) belongs to what it contains
+		return fmt.Sprintf("errwrap(%s,%q,trace=%q)^%s", v.Kind(), v.Msg, v.StackTrace, proto)
 	case *object.PanErr:
 		return fmt.Sprintf("err(%s,%q)^%s", v.Kind(), v.Msg, proto)
 	case *object.PanBuiltIn:
@@ -293,7 +295,7 @@ var c06Seeds = []string{
 	"%{1: 2, \"k\": [3]}", "%{}", "%{[1]: 2}", "%{[1]: \"a\", [2]: \"b\", [3]: \"c\"}", "%{{a: 1}: 1, [2]: 2, nil: 3, [4, 5]: 4}", "%{3: 1, 1: 2, [0]: 3, 2: 4}",
 	"[[1, \"a\"], [[2], \"b\"], [[2], \"c\"]].M", "{c: 3, a: 1, b: 2, _z: 0}", "(1:4)", "(5:1:-2)", "(?a:?d)", "nil", "true", "false", "{|x| x}", "{|a, k: 1| [a, k]}",
 	"[1, nil, 2]", "[3, 1, 2]", "\"a,b,c\"", "1.try", "1.try./(0)", "{a: 1}.bear({b: 2})", "Int.bear({twice: m{self * 2}}).new(4)", "Str.bear.new(\"sub\")",
-	"[\"x\", \"y\"]", "{name: \"n\", call: m{1}}", "(1:3).A", "\"#{1}x\"",
+	"[\"x\", \"y\"]", "{name: \"n\", call: m{1}}", "(1:3).A", "\"#{1}x\"", "1.try./(0).err", "\"a\".try.{|x| raise ValueErr.new(\"v\")}.err", "5.try.nosuch.err",
 }
 
 // tooDeep reports nesting deeper than max (a cyclic value - possible only when
@@ -684,8 +686,22 @@ func (c *c06Check) runHist(seed, run uint64, t *tape.Tape, s *C06Stats, lines *[
 				opName = "digest"
 				src = fmt.Sprintf("[[\"a\", 1], [\"b\", %s]]@(%s){|x| x}", arg(), recv.name)
 			default:
-				opName = "try"
-				src = fmt.Sprintf("%s.try.{|x| %s}.A", recv.name, arg())
+				if typeTag(recv.val) == "errwrap" {
+					// raising a caught error again (caught once more, or ending the line) must
+					// leave the caught value as it was
+					opName = "reraise"
+					switch sub(2, 1, 1) {
+					case 0:
+						src = fmt.Sprintf("1.try.{|x| raise %s}.err", recv.name)
+					case 1:
+						src = fmt.Sprintf("{|| 0; raise %s}()", recv.name)
+					default:
+						src = fmt.Sprintf("[%s.type, %s.msg, %s == %s]", recv.name, recv.name, recv.name, pick().name)
+					}
+				} else {
+					opName = "try"
+					src = fmt.Sprintf("%s.try.{|x| %s}.A", recv.name, arg())
+				}
 			}
 		}
 		lastKind, lastName, lastRecv = opKind, opName, recv
